@@ -78,6 +78,9 @@ type Options struct {
 	MACName func(cipher, mac string) string
 	// MaxPackets bounds the work (0 = no bound).
 	MaxPackets int
+	// OnExchange, when set, is called for every exchange once H and SigErr are known,
+	// before any packet under the new keys is processed.
+	OnExchange func(ex *Exchange)
 }
 
 func readVersion(stream []byte) (line []byte, rest []byte, err error) {
@@ -308,6 +311,9 @@ func Decode(c2s, s2c []byte, secret Secret, opt Options) (*Trace, error) {
 			ex.SessionID = tr.Exchanges[0].H
 		}
 		ex.SigErr = kx.VerifyHostSignature(ex.KS, res.HostKey, ex.H, ex.Sig)
+		if opt.OnExchange != nil {
+			opt.OnExchange(ex)
+		}
 
 		// RFC 4253 7.2: IV c->s 'A', IV s->c 'B', key c->s 'C', key s->c 'D', MAC c->s 'E', MAC s->c 'F'
 		mk := func(cipher, mac string, ivTag, keyTag, macTag byte) (*sshpkt.Codec, error) {
